@@ -1,4 +1,4 @@
-(* C35 -- GramStack.serviceTxPkts / _serviceOneTxPkt (ioflo/aio/proto/stacking.py)
+(* C35 -- GramStack.serviceTxPkts / serviceTxPktsOnce / _serviceOneTxPkt (ioflo/aio/proto/stacking.py)
    Hand model (tie H).  Definitions only.
 
    packet   = (id, destination)           ids/destinations interned as Z by the harness
@@ -39,8 +39,16 @@ Definition service (q : list pkt) (orc : list bool) : list pkt * list pkt :=
 Definition blocked_of (q : list pkt) (orc : list bool) : list Z :=
   let '(_, _, b) := pass q [] [] orc [] in b.
 
-(* stack history: enqueue a packet, or run one service pass with a failure oracle *)
-Inductive op := Enq (p : pkt) | Service (orc : list bool).
+(* GramStack.serviceTxPktsOnce: the head packet only; a transient failure leaves it at the HEAD of the queue
+   (it must not fall behind later packets to its own destination) *)
+Definition once (q : list pkt) (fail : bool) : list pkt * list pkt :=
+  match q with
+  | [] => ([], [])
+  | p :: q' => if fail then (p :: q', []) else (q', [p])
+  end.
+
+(* stack history: enqueue a packet, run one service pass with a failure oracle, or service one packet *)
+Inductive op := Enq (p : pkt) | Service (orc : list bool) | Once (fail : bool).
 
 Record st := { txq : list pkt; log : list pkt; queued : list pkt }.
 Definition init : st := {| txq := []; log := []; queued := [] |}.
@@ -50,6 +58,8 @@ Definition step (s : st) (o : op) : st :=
   | Enq p => {| txq := txq s ++ [p]; log := log s; queued := queued s ++ [p] |}
   | Service orc => let '(q', sent) := service (txq s) orc in
                    {| txq := q'; log := log s ++ sent; queued := queued s |}
+  | Once f => let '(q', sent) := once (txq s) f in
+              {| txq := q'; log := log s ++ sent; queued := queued s |}
   end.
 
 Definition run (ops : list op) : st := fold_left step ops init.
